@@ -25,6 +25,8 @@ def run(repo, run, tier):
     # the terminal event is reported: a root exactly at the end of the step (where the run then stops) passes the in-step test in both directions
     from .c07 import in_step_test
     in_step_test(repo, run, IntegrateModel(repo), rule_id="C09.6")
+    # a terminal event in the very first step empties the piece store (the rolled-back pieces are removed before the step is redone)
+    emptiness(repo, run, "C09.7")
 
 
 # ------------------------------------------------------------------------------------------------
@@ -283,3 +285,96 @@ def removal_index(repo, run, rid):
         if not ok:
             run.report(rid, DS, c, "on a terminal event the interpolant removed is not the one just added for the rolled-back step: %s; for the other direction a valid piece "
                                    "of the trajectory is discarded and the overshooting piece stays (dense output unsorted, queries near t0 extrapolated)" % why)
+
+
+# ------------------------------------------------------------------------------------------------
+def emptiness(repo, run, rule_id):
+    """DenseOutput's piece lists can be EMPTY without being None: remove_interpolant pops from them, and the terminal path of integrate() removes the
+    pieces of the rolled-back step before the step is redone -- when the event fires in the very first step nothing is left.  Every constant-index read
+    `self.t_eval[c]` / `self.y_interpolants[c]` in the class must therefore be unreachable both while the store is None and while it is an empty list
+    (path condition with guard clauses; atoms about the store fixed to their value under each hypothesis, all others free)."""
+    import itertools
+    import operator
+    from ..front import const_value
+    from ..sym import inline_locals, path_condition, tree_atoms, eval_bool, BoolTracker
+    rid = run.rule(rule_id, "emptiness discipline of the dense-output store: a read `self.t_eval[c]` / `self.y_interpolants[c]` is reachable neither while the "
+                            "store is None nor while it is an empty list (elements are removed by remove_interpolant, so 'not None' does not imply 'non-empty')", floor=2)
+    LISTS = ("t_eval", "y_interpolants")
+    cdef = repo.get(DS, "DenseOutput.add_interpolant")._parent
+    methods = [n for n in cdef.body if isinstance(n, ast.FunctionDef)]
+    shrinks = []
+    for fn in methods:
+        for n in ast.walk(fn):
+            if isinstance(n, ast.Call) and isinstance(n.func, ast.Attribute) and n.func.attr in ("pop", "remove", "clear") and is_self_attr(n.func.value) and \
+                    n.func.value.attr in LISTS:
+                shrinks.append((fn, n))
+            if isinstance(n, ast.Delete) and any(isinstance(t, ast.Subscript) and is_self_attr(t.value) and t.value.attr in LISTS for t in n.targets):
+                shrinks.append((fn, n))
+    run.judged(rid, "the store can shrink: %s" % (", ".join("%s in %s" % (src(n)[:40], fn.name) for fn, n in shrinks) or "no removal anywhere"), nontrivial=False)
+    ops = {"Eq": operator.eq, "NotEq": operator.ne, "Lt": operator.lt, "LtE": operator.le, "Gt": operator.gt, "GtE": operator.ge}
+
+    def is_store(n):
+        return is_self_attr(n) and n.attr in LISTS
+
+    def is_len(n):
+        return isinstance(n, ast.Call) and fname(n) == "len" and len(n.args) == 1 and is_store(n.args[0])
+
+    def fix(leaf, none):
+        """value of an atom when the store is None (none=True) / an empty list (none=False); None = not about the store"""
+        if isinstance(leaf, tuple):
+            l, op, r = leaf
+            opn = type(op).__name__
+            for a, b, flip in ((l, r, False), (r, l, True)):
+                if is_store(a) and isinstance(b, ast.Constant) and b.value is None and opn in ("Is", "IsNot", "Eq", "NotEq"):
+                    return none if opn in ("Is", "Eq") else not none
+                if is_len(a) and not none:
+                    try:
+                        cv = const_value(b)
+                    except ValueError:
+                        continue
+                    return ops[opn](cv, 0) if flip else ops[opn](0, cv)
+            return None
+        if isinstance(leaf, ast.AST) and (is_store(leaf) or (is_len(leaf) and not none)):
+            return False
+        return None
+
+    for fn in methods:
+        if fn.name == "__init__":
+            continue
+        env = inline_locals(fn)
+        canon = Canon(env=env)
+        for sub in ast.walk(fn):
+            if not (isinstance(sub, ast.Subscript) and isinstance(sub.ctx, ast.Load) and is_store(sub.value)):
+                continue
+            try:
+                const_value(sub.slice)
+            except (ValueError, TypeError):
+                continue
+            run.analysed_fn(DS, fn)
+            for none in (True, False):
+                if not none and not shrinks and sub.value.attr == "t_eval":
+                    continue
+                bt = BoolTracker(canon=canon)
+                pc, _ = path_condition(sub, fn, tracker=bt, guards=True)
+                atoms = tree_atoms(pc)
+                fixed = {}
+                for a in atoms:
+                    v = fix(bt.leaves.get(a), none)
+                    if v is not None:
+                        fixed[a] = v
+                free = [a for a in atoms if a not in fixed]
+                reachable = len(free) > 14
+                if not reachable:
+                    for vals in itertools.product((False, True), repeat=len(free)):
+                        asg = dict(fixed)
+                        asg.update(zip(free, vals))
+                        if eval_bool(pc, asg):
+                            reachable = True
+                            break
+                hyp = "None" if none else "an empty list"
+                run.judged(rid, "%s: `%s` unreachable while the store is %s (atoms fixed: %d)" % (fn.name, src(sub), hyp, len(fixed)), ok=not reachable)
+                if reachable:
+                    run.report(rule_id, DS, sub, "`%s` is read on a path that can be taken while the store is %s: %s" % (
+                        src(sub), hyp, "after remove_interpolant has emptied it (a terminal event in the first step of a run removes the rolled-back pieces before the step is "
+                        "redone) the next add_interpolant raises IndexError and the run ends in FailedIntegration instead of stopping at the event" if not none else
+                        "no piece has been added yet"), text="%s while %s" % (src(sub), hyp))
